@@ -7,6 +7,7 @@
 //! a failing configuration is re-run 3x and only reported when it fails every time, then shrunk
 //! with proptest's value tree.
 
+mod backlog;
 mod exec;
 mod model;
 
@@ -63,6 +64,30 @@ fn main() {
 
     if let Some(path) = &ctx.replay {
         let v = vcore::load_replay(path);
+        if v.get("victim_us").is_some() {
+            let c: backlog::BacklogCase = serde_json::from_value(v).expect("backlog case");
+            let mut hits = 0;
+            for i in 0..3 {
+                let o = backlog::run(&c, wall_bound());
+                println!("replay run {}: {c:?}: {o:?}", i + 1);
+                if o.judged && o.wakes_after_drop > 0 {
+                    hits += 1;
+                }
+            }
+            report.stats.evaluations = 3;
+            if hits == 3 {
+                report.failures.push(Failure {
+                    signature: backlog::SIG.into(),
+                    what: backlog::what(&c, &backlog::run(&c, wall_bound())),
+                    case: serde_json::to_value(&c).unwrap(),
+                    shrunk_from: None,
+                    shrunk_to: None,
+                });
+            } else if hits > 0 {
+                report.inconclusive.push("the case failed in some but not all of 3 runs".into());
+            }
+            vcore::finish(&ctx, meta, report);
+        }
         let case: Case = serde_json::from_value(v).unwrap_or_else(|e| {
             eprintln!("replay file does not hold a C42 case: {e}");
             std::process::exit(2)
@@ -180,8 +205,13 @@ fn main() {
             None => (cases[i].clone(), pv.what.clone()),
         };
         // the minimal case must itself reproduce 3/3, otherwise the original (confirmed) case is reported
-        if best.0 != cases[i] && reproduces(&best.0, &sig, 3).0 < 3 {
-            best = (cases[i].clone(), pv.what.clone());
+        if best.0 != cases[i] {
+            let (hits, rs) = reproduces(&best.0, &sig, 3);
+            if hits < 3 {
+                best = (cases[i].clone(), pv.what.clone());
+            } else if let Some(v) = rs[0].verdicts.iter().find(|v| v.sig == sig) {
+                best.1 = v.what.clone();
+            }
         }
         let cj2 = case_json(&best.0);
         let sig = if pv.liveness { format!("{sig}:{}", exec::shape(&best.0)) } else { sig };
@@ -197,6 +227,7 @@ fn main() {
             shrunk_from: Some(from),
         });
     }
+    backlog_campaign(&ctx, &known, &mut report, &mut unconfirmed);
     for u in &unconfirmed {
         let sig = u["signature"].as_str().unwrap_or("");
         if confirmed.iter().any(|c| c == sig) {
@@ -204,7 +235,7 @@ fn main() {
         }
         if u["liveness"] == json!(true) {
             report.inconclusive.push(format!("wall bound exceeded, reproduced {}: {}", u["reproduced"], u["what"]));
-        } else if sig != "C42:dropped-sleep-woke" && sig != "C42:block-timeout-spurious-timeout" {
+        } else if !sig.starts_with("C42:dropped-sleep-woke") && sig != "C42:block-timeout-spurious-timeout" {
             // exact clauses cannot be falsified by scheduling noise: never pass silently
             report.inconclusive.push(format!("exact clause failed but reproduced only {}: {sig} — {}", u["reproduced"], u["what"]));
         }
@@ -232,4 +263,93 @@ fn main() {
     report.stats.extra.insert("concurrent_configurations".into(), json!(workers));
     report.stats.extra.insert("max_configuration_wall_ms".into(), json!(max_wall.as_millis() as u64));
     vcore::finish(&ctx, meta, report);
+}
+
+/// Deterministic sub-campaign of clause (c): cancellation queued behind a backlog of timer messages.
+fn backlog_campaign(ctx: &vcore::Ctx, known: &Known, report: &mut Report, unconfirmed: &mut Vec<Value>) {
+    use proptest::prelude::*;
+    let n: usize = std::env::var("RT_BACKLOG_CASES").ok().and_then(|s| s.parse().ok()).unwrap_or(ctx.pick(40, 400));
+    let strategy = (1u32..=200, prop_oneof![1u32..=20, 1u32..=2000], 100u32..=5000)
+        .prop_map(|(fillers, polls_each, victim_us)| backlog::BacklogCase { fillers, polls_each, victim_us });
+    let mut runner = vcore::pt::runner(n as u32, ctx.rng_seed("backlog"), 0);
+    let fails3 = |c: &backlog::BacklogCase| (0..3).all(|_| {
+        let o = backlog::run(c, wall_bound());
+        o.judged && o.wakes_after_drop > 0
+    });
+    let mut failing = 0u64;
+    let mut reported = false;
+    for _ in 0..n {
+        let c = vcore::pt::draw(&mut runner, &strategy);
+        let o = backlog::run(&c, wall_bound());
+        let cj = serde_json::to_value(&c).unwrap();
+        let mut classes = vec!["backlog_scenario".to_string()];
+        if o.judged {
+            classes.push("backlog_drop_before_deadline".into());
+        }
+        if o.backlog_drained_after.map(|d| d > Duration::from_micros(c.victim_us as u64)).unwrap_or(false) {
+            classes.push("backlog_longer_than_sleep".into());
+        }
+        if o.backlog_drained_after.is_none() {
+            report.inconclusive.push(format!("backlog scenario {c:?}: the timer thread did not reach the sentinel within {:?}", wall_bound()));
+        }
+        report.stats.case(vcore::hash_json(&cj), o.judged && c.fillers as u64 * c.polls_each as u64 >= 2, &classes);
+        if !(o.judged && o.wakes_after_drop > 0) {
+            continue;
+        }
+        failing += 1;
+        if reported {
+            continue;
+        }
+        if !fails3(&c) {
+            unconfirmed.push(json!({"signature": backlog::SIG, "what": backlog::what(&c, &o), "reproduced": "<3/3", "liveness": false, "case": cj}));
+            continue;
+        }
+        reported = true;
+        if known.matches(backlog::SIG) {
+            continue;
+        }
+        // shrink: fewer messages ahead of the cancellation, as long as it still fails 3/3
+        let from = cj.to_string().len() as u64;
+        let mut best = c.clone();
+        loop {
+            let mut cands = vec![];
+            if best.fillers > 1 {
+                cands.push(backlog::BacklogCase { fillers: best.fillers / 2, ..best.clone() });
+            }
+            if best.polls_each > 1 {
+                cands.push(backlog::BacklogCase { polls_each: best.polls_each / 2, ..best.clone() });
+            }
+            if best.polls_each > 1 && best.victim_us >= 200 {
+                cands.push(backlog::BacklogCase { polls_each: best.polls_each / 2, victim_us: best.victim_us / 2, ..best.clone() });
+            }
+            if best.fillers > 1 && best.victim_us >= 200 {
+                cands.push(backlog::BacklogCase { fillers: best.fillers / 2, victim_us: best.victim_us / 2, ..best.clone() });
+            }
+            if best.victim_us % 100 != 0 {
+                cands.push(backlog::BacklogCase { victim_us: best.victim_us / 100 * 100, ..best.clone() });
+            }
+            match cands.into_iter().find(|x| fails3(x) && fails3(x)) {
+                Some(x) => best = x,
+                None => break,
+            }
+        }
+        let mut o = backlog::run(&best, wall_bound());
+        for _ in 0..10 {
+            if o.judged && o.wakes_after_drop > 0 {
+                break;
+            }
+            o = backlog::run(&best, wall_bound());
+        }
+        let cj2 = serde_json::to_value(&best).unwrap();
+        report.failures.push(Failure {
+            signature: backlog::SIG.into(),
+            what: backlog::what(&best, &o),
+            shrunk_to: Some(cj2.to_string().len() as u64),
+            case: cj2,
+            shrunk_from: Some(from),
+        });
+    }
+    if reported && known.matches(backlog::SIG) {
+        *report.stats.excluded_known.entry(backlog::SIG.into()).or_insert(0) += failing;
+    }
 }
